@@ -49,6 +49,14 @@ func c17Child() {
 		os.Exit(90)
 	}
 	n, _ := strconv.Atoi(os.Getenv("VERIF_C17_N"))
+	if os.Getenv("VERIF_C17_MODE") == "killvisible" {
+		// no limit: the parent kills this process the moment the node's name becomes visible
+		p := file.NewPersistForPath(dir)
+		if err := p.Store(context.Background(), name, payload); err != nil {
+			os.Exit(3)
+		}
+		os.Exit(0)
+	}
 	lim := syscall.Rlimit{Cur: uint64(n), Max: uint64(n)}
 	if os.Getenv("VERIF_C17_MODE") == "transient" {
 		// a transient condition: the first write that hits the limit fails (short write + EFBIG), and the limit is
@@ -173,6 +181,19 @@ func enumC17(tier string, shard, nshards int, yield func(C17Case) bool) (bool, s
 			}
 		}
 	}
+	for _, mib := range []int{8, 24} {
+		i++
+		if i%nshards != shard {
+			continue
+		}
+		b := make([]byte, 4096)
+		for j := range b {
+			b[j] = byte(j*13 + mib)
+		}
+		if !yield(C17Case{Payload: base64.StdEncoding.EncodeToString(b), Cuts: []C17Cut{{N: mib, Mode: "killvisible"}}}) {
+			return false, ""
+		}
+	}
 	return true, fmt.Sprintf("payload lengths %v x EVERY cut offset 0..len x {process killed at that byte, write returns an I/O error at that byte}", lens)
 }
 
@@ -197,6 +218,43 @@ func runChild(dir, name, payloadFile string, cut C17Cut) (exit int, err error) {
 		return code, nil
 	}
 	return -1, err
+}
+
+// runChildKillWhenVisible starts a child that stores the node without any limit and kills it as soon as a file of the node's
+// name can be seen in the directory (a crash at the very moment of publication). Returns the child's exit status
+// (negative: killed) and whether the name was seen before the child ended.
+func runChildKillWhenVisible(dir, name, payloadFile string) (exit int, seen bool, err error) {
+	cmd := exec.Command(os.Args[0], "-test.run", "^$")
+	cmd.Env = append(os.Environ(), "VERIF_C17_CHILD=1", "VERIF_C17_DIR="+dir, "VERIF_C17_NAME="+name, "VERIF_C17_PAYLOAD_FILE="+payloadFile,
+		"VERIF_C17_N=0", "VERIF_C17_MODE=killvisible")
+	if err := cmd.Start(); err != nil {
+		return 0, false, err
+	}
+	done := make(chan error, 1)
+	go func() { done <- cmd.Wait() }()
+	path := filepath.Join(dir, name)
+	for {
+		select {
+		case werr := <-done:
+			if werr == nil {
+				return 0, seen, nil
+			}
+			if ee, ok := werr.(*exec.ExitError); ok {
+				if ws, ok := ee.Sys().(syscall.WaitStatus); ok && ws.Signaled() {
+					return -int(ws.Signal()), seen, nil
+				}
+				return ee.ExitCode(), seen, nil
+			}
+			return -1, seen, werr
+		default:
+		}
+		if !seen {
+			if _, err := os.Lstat(path); err == nil {
+				seen = true
+				cmd.Process.Kill()
+			}
+		}
+	}
 }
 
 func runC17(c C17Case, o *run.Obs) error {
@@ -275,6 +333,53 @@ func runC17(c C17Case, o *run.Obs) error {
 			nontrivial = true
 			o.Label("mode=fullfs")
 			// the final re-store below runs on the (now empty) plain directory again
+			continue
+		}
+		if cut.Mode == "killvisible" {
+			// a large node; the writing process is killed the moment the node's name becomes visible. The node directory is
+			// (when mounting is permitted) a file system of its own, i.e. another one than the system's temporary directory.
+			mounted := syscall.Mount("tmpfs", dir, "tmpfs", 0, "size=131072k") == nil
+			big := bytes.Repeat(payload, (cut.N<<20)/len(payload)+1)
+			bigName := ref.NodeName(big)
+			bigFile := dir + ".bigpayload"
+			if err := os.WriteFile(bigFile, big, 0o644); err != nil {
+				if mounted {
+					syscall.Unmount(dir, syscall.MNT_DETACH)
+				}
+				return fmt.Errorf("harness: %w", err)
+			}
+			exit, seen, err := runChildKillWhenVisible(dir, bigName, bigFile)
+			os.Remove(bigFile)
+			var verr error
+			if err != nil {
+				verr = fmt.Errorf("harness: child process: %w", err)
+			} else {
+				p := file.NewPersistForPath(dir)
+				b, lerr := p.Load(ctx, bigName)
+				when := fmt.Sprintf("node of %d bytes (own file system: %v), writer killed the moment the name became visible (seen=%v, child exit %d)", len(big), mounted, seen, exit)
+				if lerr == nil && !bytes.Equal(b, big) {
+					verr = fmt.Errorf("%s: Load returns %d of %d bytes: a partial node is exposed under its final name", when, len(b), len(big))
+				} else if lerr != nil && exit == 0 {
+					verr = fmt.Errorf("%s: the write reported success but Load fails: %v", when, lerr)
+				} else if err := p.Store(ctx, bigName, big); err != nil {
+					verr = fmt.Errorf("%s: storing the node again failed: %v", when, err)
+				} else if b, lerr := p.Load(ctx, bigName); lerr != nil || !bytes.Equal(b, big) {
+					verr = fmt.Errorf("%s: after storing the node again Load returns %d bytes, err=%v", when, len(b), lerr)
+				}
+			}
+			if mounted {
+				syscall.Unmount(dir, syscall.MNT_DETACH)
+			} else {
+				os.Remove(filepath.Join(dir, bigName))
+			}
+			if verr != nil {
+				return verr
+			}
+			nontrivial = true
+			o.Label("mode=killvisible")
+			if mounted {
+				o.Label("killvisible:own-file-system")
+			}
 			continue
 		}
 		if cut.Mode == "ctxcancel" {
